@@ -10,7 +10,7 @@ from ..anf import is_zero, short
 from ..effects import mutated_params
 from ..model import dotted_name, src, body_wo_doc
 from ..report import AnalysisError, Where
-from ..sym import (Ev, Tup, ArrV, RaisedV, BoundLib, LibV, MatchV, Transposed, MatProd, as_sym, is_sym, hkey)
+from ..sym import (explore_branches, Ev, Tup, ArrV, RaisedV, BoundLib, LibV, MatchV, Transposed, MatProd, as_sym, is_sym, hkey)
 
 LEVEL = "other"
 TECHNIQUE = "static analysis: folding of evec_disp2eig to a normal form, of the overlap matrix of evec_sort on symbolic 2x2 bases, structural rules on the greedy loop, reader folded on reference lines of the matdyn layout"
@@ -121,21 +121,31 @@ def r_sort(ctx, model):
         return a[0]
 
     intr = {"numpy.array": array, "numpy.asarray": array, "numpy.conj": conj, "numpy.conjugate": conj, "numpy.argmax": argmax, "numpy.abs": absf, "numpy.absolute": absf}
-    ev = Ev(model, {}, intr, ctx=ctx)
-    try:
-        ev.call_def(f, model.mods["cij.misc.evec_sort"], SORT, [Tup(["x0", "x1"], "list"), mk(Tm), mk(B)], {})
-    except Stop:
-        pass
-    m = cap.get("m")
-    if not isinstance(m, ArrV) or m.shape != (2, 2):
+    # symbolic 2x2 fold up to the first arg-max; branches on the overlap data before it (shortcuts) are followed both ways:
+    # whether such a shortcut is right is decided by the folded reference bases below, here every path that reaches the
+    # arg-max must present the Hermitian overlap matrix
+    def to_argmax(decide):
+        cap.pop("m", None)
+        ev = Ev(model, {}, intr, ctx=ctx)
+        ev.branch_oracle = decide
+        try:
+            ev.call_def(f, model.mods["cij.misc.evec_sort"], SORT, [Tup(["x0", "x1"], "list"), mk(Tm), mk(B)], {})
+        except Stop:
+            pass
+        return cap.get("m")
+    paths = explore_branches(to_argmax)
+    reached = [m_ for _, m_ in paths if m_ is not None]
+    if not reached or any(not isinstance(m_, ArrV) or m_.shape != (2, 2) for m_ in reached):
         raise AnalysisError("evec_sort: overlap matrix not reached")
+    ev = Ev(model, {}, intr, ctx=ctx)
     bad = []
-    for i in range(2):
-        for j in range(2):
-            want = sum(CONJ(B[i][k]) * Tm[j][k] for k in range(2))
-            alt = sum(B[i][k] * CONJ(Tm[j][k]) for k in range(2))
-            if not (is_zero(m.get((i, j)) - want) or is_zero(m.get((i, j)) - alt)):
-                bad.append(f"m[{i},{j}] = {m.get((i, j))}")
+    for m in reached:
+        for i in range(2):
+            for j in range(2):
+                want = sum(CONJ(B[i][k]) * Tm[j][k] for k in range(2))
+                alt = sum(B[i][k] * CONJ(Tm[j][k]) for k in range(2))
+                if not (is_zero(m.get((i, j)) - want) or is_zero(m.get((i, j)) - alt)):
+                    bad.append(f"m[{i},{j}] = {m.get((i, j))}")
     ctx.check(not bad and "abs_of" in cap, "overlap m[i, j] = <base_i | target_j> (Hermitian product; rows = base, columns = target), arg-max of |m|", w,
               expected="sum_k conj(base[i][k]) * target[j][k]", found="; ".join(bad) or "as required",
               explanation="the overlap matrix is not the Hermitian product of base and target vectors with base vectors as rows (missing conjugate, "
@@ -241,7 +251,30 @@ def r_sort(ctx, model):
                 want[perm[j]] = f"item{j}"
             if got != want:
                 bad.append(f"{basis_name} basis, permutation {perm}: {got} (want {want})")
-    ctx.check(not bad, f"every item lands at the position of its matching base vector ({n_sc} reference bases: 6 permutations x 2 orthonormal bases, phases 1/-1/i, 2 % perturbation)", w,
+    # a large set (24 vectors, as for an 8-atom cell) in which only two neighbouring bands crossed - the common case between two
+    # neighbouring volumes: almost all overlaps sit on the diagonal, the two that do not must still be exchanged
+    NB = 24
+    IB = [[sp.Integer(1 if i == j else 0) for j in range(NB)] for i in range(NB)]
+    for swap in ((10, 11), None):
+        n_sc += 1
+        perm = list(range(NB))
+        if swap:
+            perm[swap[0]], perm[swap[1]] = perm[swap[1]], perm[swap[0]]
+        target = [[phases[j % 3] * (IB[perm[j]][k_] + eps * IB[(perm[j] + 1) % NB][k_]) for k_ in range(NB)] for j in range(NB)]
+        items = Tup([f"item{j}" for j in range(NB)], "list")
+        ev3 = Ev(model, {}, num_intr(), ctx=ctx)
+        try:
+            res = ev3.call_def(f, model.mods["cij.misc.evec_sort"], SORT, [items, mk(target), mk(IB)], {})
+        except RaisedV as e:
+            bad.append(f"{NB} vectors, crossing {swap}: raises {e.exc_name}")
+            continue
+        got = list(res.items) if isinstance(res, Tup) else res
+        want = [None] * NB
+        for j in range(NB):
+            want[perm[j]] = f"item{j}"
+        if got != want:
+            bad.append(f"{NB} vectors, crossing {swap}: positions {[i for i in range(NB) if not isinstance(got, list) or got[i] != want[i]]} wrong")
+    ctx.check(not bad, f"every item lands at the position of its matching base vector ({n_sc} reference bases: 6 permutations x 2 orthonormal 3-vector bases, a 24-vector basis with and without one crossing, phases 1/-1/i, 2 % perturbation)", w,
               expected="sorted[perm[j]] = items[j]; a permutation of the items", found="; ".join(bad[:3]) or f"{n_sc} scenarios as required",
               explanation="the greedy assignment does not recover the permutation: items are placed by the target's position (inverse permutation), only the row or only "
                           "the column of a match is eliminated (an item or a position used twice), the magnitude of the overlap is not used, or it does not run once per item",
